@@ -497,3 +497,51 @@ func c03CLISource(src []byte) []byte {
 	}
 	return append(append([]byte(nil), src...), '\n')
 }
+
+// c03CheckShownLine: when the command line tool shows the offending line (the line of the error position exists in the text it
+// parsed), the line it shows is that line (tabs widened to four blanks) and the caret stands below the character that contains
+// the error's byte column: as many places to the right as the text before that byte takes on the screen (one per character,
+// four per tab). Nothing is claimed when no line is shown.
+func c03CheckShownLine(cli []byte, pr c03ParseRes, stderr string) (bad, got, want string) {
+	if !pr.IsParse {
+		return
+	}
+	lines := bytes.Split(cli, []byte{'\n'})
+	if pr.Line < 1 || pr.Line > len(lines) {
+		return
+	}
+	srcLine := string(lines[pr.Line-1])
+	out := strings.Split(strings.TrimRight(stderr, "\n"), "\n")
+	if len(out) < 3 {
+		return
+	}
+	shown, caret := out[len(out)-2], out[len(out)-1]
+	wantShown := strings.ReplaceAll(srcLine, "\t", "    ")
+	if strings.Contains(srcLine, "\r") || strings.Contains(srcLine, "\x00") || shown != wantShown {
+		// the line contains bytes that do not survive the terminal-oriented output unchanged, or the shown line is not where we
+		// expect it (a message that itself spans lines): nothing to compare against
+		if shown != wantShown {
+			return
+		}
+	}
+	col := pr.Col - 1
+	if col < 0 {
+		col = 0
+	}
+	if col > len(srcLine) {
+		col = len(srcLine)
+	}
+	width := 0
+	for _, r := range srcLine[:col] {
+		if r == '\t' {
+			width += 4
+		} else {
+			width++
+		}
+	}
+	wantCaret := strings.Repeat(" ", width) + "^"
+	if caret != wantCaret {
+		return "the goawk binary shows the offending line with the caret in the wrong place", fmt.Sprintf("%q", caret), fmt.Sprintf("%q (error at byte column %d of %q)", wantCaret, pr.Col, srcLine)
+	}
+	return
+}
